@@ -398,6 +398,9 @@ type planReader struct {
 	sizes  []int
 	idx    int
 	served int
+	// eofWithData makes the final chunk come back together with io.EOF (as io.Reader permits and
+	// e.g. HTTP bodies with Content-Length or iotest.DataErrReader do) instead of a separate (0, EOF).
+	eofWithData bool
 }
 
 func (r *planReader) Read(p []byte) (int, error) {
@@ -412,6 +415,9 @@ func (r *planReader) Read(p []byte) (int, error) {
 	r.data = r.data[n:]
 	r.sizes[r.idx] -= n
 	r.served += n
+	if r.eofWithData && len(r.data) == 0 {
+		return n, io.EOF
+	}
 	return n, nil
 }
 
@@ -432,14 +438,14 @@ func (s *sink) Write(p []byte) (int, error) {
 
 // writeAll sends data through c in the planned write sizes using the given path and then
 // closes the write side.
-func writeAll(c netio.Conn, data []byte, sizes []int, path int) error {
+func writeAll(c netio.Conn, data []byte, sizes []int, path int, eofWithData bool) error {
 	switch path {
 	case pathRF:
 		rf, ok := c.(io.ReaderFrom)
 		if !ok {
 			return errors.New("conn has no ReadFrom")
 		}
-		pr := &planReader{data: data, sizes: append([]int(nil), sizes...)}
+		pr := &planReader{data: data, sizes: append([]int(nil), sizes...), eofWithData: eofWithData}
 		n, err := rf.ReadFrom(pr)
 		if err != nil {
 			return fmt.Errorf("ReadFrom: %w", err)
